@@ -100,7 +100,7 @@ func solveReports(reps []*FuncReport, dir string, timeout time.Duration, par int
 				}
 				r := raceWith(firstPass, file, to)
 				r.Bytes = n
-				if r.Status != "unsat" && r.Status != "sat" && o.Expect != "sat" && (strings.Contains(o.Goal, "(forall ") || strings.Contains(o.Goal, "(exists ")) {
+				if r.Status != "unsat" && r.Status != "sat" && o.Expect != "sat" && !skipRetry[shortKey(rep.Key)+":"+o.Name] && (strings.Contains(o.Goal, "(forall ") || strings.Contains(o.Goal, "(exists ")) {
 					// second formulation of a quantified goal (see emitVariant)
 					emitMu.Lock()
 					file2, n2, err2 := vc.emitVariant(o, sub, i, 1)
